@@ -423,8 +423,11 @@ inline void initStripeState(
       stripeEnd = end;
     } else {
       Wide perStripe = totalRange / static_cast<Wide>(numWorkers);
-      Wide endWide = static_cast<Wide>(start) + static_cast<Wide>(i + 1) * perStripe;
-      stripeEnd = alignDownStripe(static_cast<IntegerT>(endWide), state.granularity);
+      // Align the stripe LENGTH (relative to start), not the absolute end: chunk sizes must be
+      // multiples of the granularity for any start value.
+      Wide len = static_cast<Wide>(i + 1) * perStripe;
+      len -= len % static_cast<Wide>(state.granularity);
+      stripeEnd = static_cast<IntegerT>(static_cast<Wide>(start) + len);
       if (stripeEnd <= cursor) {
         stripeEnd = cursor;
       }
